@@ -741,9 +741,11 @@ func (x *Exec) run(fr *Frame, st *State, b *ssa.BasicBlock, pred *ssa.BasicBlock
 			x.runDefers(fr, st, func(st2 *State) { x.run(fr, st2, b, pred, idx+1) })
 			return
 		case *ssa.Go:
-			x.abort("go statement (concurrency is outside the verified subset)")
+			x.goStmt(fr, st, v)
+			continue
 		case *ssa.Send:
-			x.abort("channel send (concurrency is outside the verified subset)")
+			x.chanSend(st, x.get(fr, st, v.Chan), TTrue, v.Pos())
+			continue
 		case *ssa.Store:
 			addr := x.get(fr, st, v.Addr)
 			val := x.get(fr, st, v.Val)
